@@ -4,7 +4,7 @@
 //
 //	line <withid> <unix-ns> <tag-hex> <id> <f0,...,f9>        lines.go   real appendPhout (verif hook)
 //	setters <unix-ns> <tag-hex> <id> <9 values>               lines.go   public setters + Sample.String()
-//	aggr <fmt> <Q> <G> <per> <mode> <delay-ms> <buf> <salt> [<stall-ms>]   aggr.go   real aggregators under G reporters
+//	aggr <fmt> <Q> <G> <per> <mode> <delay-ms> <buf> <salt> [<stall-ms> [<old>]]   aggr.go   real aggregators under G reporters
 //	engine <fmt> <instances> <ammo> <Q> <buf> [<ramp/s> <shot-us>]  engine.go  real engine, normal end of run (optionally instances started over time, slow shots)
 //	signal <INT|TERM> <delay-ms> <instances> <work-us> <buf>  signal.go  pandora-verif subprocess + signal
 //	fail <after-shots> <instances> <work-us> <buf>            signal.go  pandora-verif subprocess, gun fault mid-run (failed-run exit path)
@@ -47,12 +47,16 @@ func gen(r *vh.Rand, tier string) []string {
 }
 
 func main() {
+	stalling := func(c string) bool {
+		f := strings.Split(c, " ")
+		return f[0] == "aggr" && len(f) > 9 && f[9] != "0"
+	}
 	vh.Main(gen, func(cases []string) []string {
 		out := make([]string, len(cases))
 		// aggr cases with a stalling destination mostly sleep: they run concurrently with the rest
 		var wg sync.WaitGroup
 		for i, c := range cases {
-			if f := strings.Split(c, " "); f[0] == "aggr" && len(f) > 9 {
+			if stalling(c) {
 				wg.Add(1)
 				go func(i int, c string) {
 					defer wg.Done()
@@ -61,7 +65,7 @@ func main() {
 			}
 		}
 		for i, c := range cases {
-			if f := strings.Split(c, " "); f[0] == "aggr" && len(f) > 9 {
+			if stalling(c) {
 				continue
 			}
 			out[i] = runCase(c)
